@@ -3312,3 +3312,111 @@ def kir3(m, run, what=('insert', 'remove')):
         run.ob('KR3.removal-inverts-insertion-exactly', '%s :: %d (net, parameter, inserted, removed) cases' % (frem.key, nr), not bad_r,
                'removing t of r inserted copies gives the net with r - t copies, as a polynomial identity' if not bad_r else
                'degree %d, knots %s, u = %s inserted %d times, %d removed: %s   [%d of %d cases]' % (bad_r[0][0] + (bad_r[0][1], len(bad_r), nr)), 'geomdl/helpers.py:%d in %s' % (frem.node.lineno, frem.key))
+
+
+# ====================================================================================== C01: point evaluation exactly
+def evx(m, run):
+    """EVX: the evaluate() method of every evaluator class (A3.1, A3.5 and the volume analogue, plain and rational) interpreted with the
+    sampling, span search and basis-function helpers replaced by recorders / symbolic tables and the control points by symbolic atoms:
+    sample (a, b, c) of the grid is exactly  sum N_u[a][i] N_v[b][j] N_w[c][k] P[span_u[a]-p+i][span_v[b]-q+j][span_w[c]-r+k]
+    (divided by the same sum of the weights for rational shapes), the grid is listed u-major (v, then w fastest) and each helper is asked
+    for its own direction: linspace(start_d, stop_d, sample_size_d), find_spans / basis_functions with degree_d, knots_d, size_d"""
+    from .skel import Sym
+    from .poly import Poly
+    cases = (('Curve', 1, (2,), (5,), (4,)), ('Surface', 2, (2, 1), (4, 5), (3, 4)), ('Volume', 3, (1, 2, 1), (3, 4, 2), (2, 3, 2)))
+    for cname, pdim, degs, sizes, samples in cases:
+        for rat in (False, True):
+            cls = cname + 'Evaluator' + ('Rational' if rat else '')
+            if ('evaluators', cls) not in m.classes:
+                continue
+            fi = m.lookup(('evaluators', cls), 'evaluate', 'methods')
+            hd = 3 + (1 if rat else 0)
+            dd = datadict(pdim, degs, sizes, 3, rat)
+            dd['sample_size'] = tuple(samples)
+            total = 1
+            for s_ in sizes:
+                total *= s_
+
+            def coord(idx):
+                if pdim == 1:
+                    return (idx,)
+                if pdim == 2:
+                    return (idx // sizes[1], idx % sizes[1])
+                v_ = idx % sizes[1]
+                rest = idx // sizes[1]
+                return (rest % sizes[0], v_, rest // sizes[0])
+            dd['control_points'] = tuple([Sym('P_%s_%d' % ('_'.join(map(str, coord(i))), c)) for c in range(hd)] for i in range(total))
+            start = [Tok('DEF', dep=frozenset([('start', d)])) for d in range(pdim)]
+            stop = [Tok('DEF', dep=frozenset([('stop', d)])) for d in range(pdim)]
+            params, spans_of = {}, {}
+
+            def dir_of_kv(kv):
+                return next((d for d in range(pdim) if kv is dd['knotvector'][d]), None)
+
+            def linspace(sk, node, a, b, num, *r, **k):
+                d = next((x for x in range(pdim) if a is start[x]), None)
+                if d is None or b is not stop[d] or num != samples[d]:
+                    raise Violation('EVX', 'linspace is asked for %r samples between %s and %s: start, stop and sample size of one direction go together' % (
+                        num, sorted(a.dep) if isinstance(a, Tok) and a.dep else a, sorted(b.dep) if isinstance(b, Tok) and b.dep else b), node)
+                params[d] = [Tok('DEF', dep=frozenset([('t', d, q)])) for q in range(num)]
+                return params[d]
+
+            def find_spans(sk, node, degree, kv, size, knots, *r, **k):
+                d = dir_of_kv(kv)
+                if d is None or degree != degs[d] or size != sizes[d] or knots is not params.get(d):
+                    raise Violation('EVX', 'find_spans is asked with degree %r, %r control points and the knot vector / parameters of direction %r' % (degree, size, d), node)
+                spans_of[d] = [degs[d] + (q % (sizes[d] - degs[d])) for q in range(len(knots))]
+                return list(spans_of[d])
+
+            def basis_functions(sk, node, degree, kv, spans, knots):
+                d = dir_of_kv(kv)
+                if d is None or degree != degs[d] or knots is not params.get(d) or list(spans) != spans_of.get(d):
+                    raise Violation('EVX', 'basis_functions is asked with degree %r and the knot vector / spans / parameters of different directions' % (degree,), node)
+                return [[Sym('N%d_%d_%d' % (d, q, i)) for i in range(degree + 1)] for q in range(len(knots))]
+            ab = dict(STD_ABSTRACTED)
+            ab[('linalg', 'linspace')] = Py(linspace, 'linspace')
+            ab[('helpers', 'find_spans')] = Py(find_spans, 'find_spans')
+            ab[('helpers', 'basis_functions')] = Py(basis_functions, 'basis_functions')
+            sk = SK(m, ab)
+            sk.exact = True
+            key = 'evaluators.%s.evaluate :: degrees %s, net %s, samples %s' % (cls, degs, sizes, samples)
+            why = None
+            try:
+                kw = {'start': start[0], 'stop': stop[0]} if pdim == 1 else {'start': list(start), 'stop': list(stop)}
+                out = sk.call(fi, [evaluator(cls, [0]), dd], kw)
+                nsamp = 1
+                for s_ in samples:
+                    nsamp *= s_
+                if not isinstance(out, list) or len(out) != nsamp:
+                    why = '%r points, the grid has %s = %d samples' % (len(out) if isinstance(out, list) else out, ' x '.join(map(str, samples)), nsamp)
+                else:
+                    import itertools as it
+                    for pos, q in enumerate(it.product(*[range(s_) for s_ in samples])):
+                        comps = []
+                        for c in range(hd):
+                            acc = Poly()
+                            for off in it.product(*[range(p_ + 1) for p_ in degs]):
+                                term = Poly.atom('P_%s_%d' % ('_'.join(str(spans_of[d][q[d]] - degs[d] + off[d]) for d in range(pdim)), c))
+                                for d in range(pdim):
+                                    term = term * Poly.atom('N%d_%d_%d' % (d, q[d], off[d]))
+                                acc = acc + term
+                            comps.append(acc)
+                        want = [Sym(comps[c], comps[3]) for c in range(3)] if rat else [Sym(x) for x in comps]
+                        got = out[pos]
+                        if not isinstance(got, (list, tuple)) or len(got) != 3:
+                            why = 'sample %s is %r: a point has 3 coordinates' % (list(q), got)
+                            break
+                        for c in range(3):
+                            s = _as_sym(got[c])
+                            if s is None or not s.same(want[c]):
+                                why = 'sample %s (position %d of the list) coordinate %d is %s; the definition gives the tensor-product sum over the control points at spans %s' % (
+                                    list(q), pos, c, repr(got[c])[:150], [spans_of[d][q[d]] for d in range(pdim)])
+                                break
+                        if why:
+                            break
+            except Violation as v:
+                why = '%s %s' % (v.msg, v.where())
+            except Unsupported as ex:
+                raise AnalysisError('%s: interpreter met an unsupported construct: %s' % (key, ex))
+            run.ob('EVX.point-evaluation-exact', key, why is None, 'every sample is the tensor-product sum%s, listed u-major' % (' over the weight sum' if rat else '') if why is None else why,
+                   'geomdl/evaluators.py:%d in %s' % (fi.node.lineno, fi.key))
